@@ -19,8 +19,8 @@
 //!
 //! Abort avoidance: queries are issued only on structures whose construction obeyed the safety
 //! contract (monotone values ≤ u, every index set once); `*_unchecked` queries only when the
-//! oracle says the answer exists; `n = 0` is generated with `u ≤ 70000` only because
-//! `EliasFanoBuilder::new(0, u)` allocates `u + 1` bits (`l = 0`).
+//! oracle says the answer exists.  (Since the fix "an empty Elias-Fano sequence allocated u + 1
+//! upper bits" `n = 0` is generated with every `u` up to `usize::MAX`.)
 use crate::common::*;
 use sux::dict::elias_fano::{EfDict, EfSeq, EfSeqDict};
 use sux::prelude::*;
@@ -137,8 +137,9 @@ fn parts_of<H: AsRef<[usize]> + BitLength>(e: &EliasFano<H>) -> String {
 /// independent computation of the representation: bit by bit
 fn naive_parts(n: usize, u: usize, xs: &[usize]) -> String {
     let mut l = 0usize;
-    if n > 0 && u >= n {
-        let q = u / n;
+    let m = std::cmp::max(n, 1);
+    if u >= m {
+        let q = u / m;
         while l < 63 && (q >> (l + 1)) > 0 {
             l += 1;
         }
@@ -278,7 +279,7 @@ fn exec(ctx: &mut Ctx, s: &mut S, op: &str) {
             *s = fresh();
             s.n = n;
             s.u = u;
-            let l = if n > 0 && u >= n { (u / n).ilog2() as usize } else { 0 };
+            let l = if u >= n.max(1) { (u / n.max(1)).ilog2() as usize } else { 0 };
             let o = match n.checked_add(u >> l).and_then(|x| x.checked_add(1)) {
                 Some(_) => "ok",
                 None => "panic",
@@ -598,13 +599,16 @@ fn gen_n(ctx: &mut Ctx) -> usize {
 
 fn gen_u(ctx: &mut Ctx, n: usize) -> usize {
     if n == 0 {
-        // `l = 0`: the builder allocates u + 1 bits
-        return match ctx.rng.below(6) {
+        // an empty sequence is treated like a one-element one: every u is cheap
+        return match ctx.rng.below(8) {
             0 => 0,
             1 => 1,
             2 => 63 + ctx.rng.usize_below(3),
-            3 => ctx.rng.usize_below(1000),
-            _ => ctx.rng.usize_below(70000),
+            3 => ctx.rng.usize_below(70000),
+            4 => M - ctx.rng.usize_below(1025),
+            5 => M,
+            6 => 1usize << ctx.rng.below(64),
+            _ => ctx.rng.next_u64() as usize >> ctx.rng.below(64),
         };
     }
     let maxk = 63 - (n.ilog2() as usize) - if n.is_power_of_two() { 0 } else { 1 };
@@ -846,6 +850,11 @@ fn directed(ctx: &mut Ctx) {
     directed_case(ctx, 0, 5, &[], "extend", &[3]);
     directed_case(ctx, 0, 200, &[], "cset", &[64, 128]);
     directed_case(ctx, 0, 0, &[], "slice", &[]);
+    // empty sequences over every kind of universe (the upper bits must not depend on u)
+    for u in [0usize, 1, 63, 64, 1 << 32, 1 << 63, M - 1, M] {
+        directed_case(ctx, 0, u, &[], "push", &[u / 2, 64]);
+        directed_case(ctx, 0, u, &[], "cset", &[u / 2]);
+    }
     // singletons, universe up to usize::MAX (D6: l = 64 in floating point)
     directed_case(ctx, 1, 0, &[0], "push", &[]);
     directed_case(ctx, 1, M, &[M], "push", &[M - 1, 1 << 63, (1 << 63) - 1]);
@@ -904,8 +913,7 @@ fn directed(ctx: &mut Ctx) {
         vec!["builder 3 10", "push 1", "build seq"],
         vec!["builder 3 10", "build plain"],
         vec!["builder 0 0", "push 0", "build plain", "len", "iter", "parts"],
-        vec!["builder 0 18446744073709551615"],
-        vec!["cbuilder 0 18446744073709551615"],
+        vec!["builder 0 18446744073709551615", "push 0", "build seqdict", "len", "parts", "iter"],
         vec!["from_slice [3,2]"],
         vec!["from_slice [0,5,5,4]"],
     ] {
@@ -1073,7 +1081,7 @@ fn random_case(ctx: &mut Ctx) {
         idx.push(M - ctx.rng.usize_below(2));
     }
     observe(ctx, &mut s, &qs, &idx, false);
-    let l = if n > 0 && u >= n { (u / n).ilog2() as usize } else { 0 };
+    let l = if u >= n.max(1) { (u / n.max(1)).ilog2() as usize } else { 0 };
     let lc = match l {
         0 => "l0",
         1..=7 => "l<8",
